@@ -464,6 +464,16 @@ type vcpRep struct {
 	log    *vcpLogger
 	events []string
 	images int
+	failure string // why the ledger could not go on (the real code returned an error)
+}
+
+// must stops this ledger's run when the real code returns an error; the case goes on with the other ledgers
+func (rp *vcpRep) must(err error, what string) {
+	if err != nil {
+		rp.failure = what + ": " + strings.ReplaceAll(err.Error(), "\n", " ")
+		rp.t.Errorf("%s: %s", rp.cfg.name, rp.failure)
+		rp.t.FailNow()
+	}
 }
 
 func (h *vcpHist) initState() ledgercore.InitState {
@@ -475,7 +485,11 @@ func (h *vcpHist) initState() ledgercore.InitState {
 }
 
 func vcpOpenRep(t *testing.T, h *vcpHist, c vcpRepCfg) *vcpRep {
-	rp := &vcpRep{t: t, h: h, cfg: c, log: vcpNewLogger()}
+	return vcpOpenRepInto(&vcpRep{}, t, h, c)
+}
+
+func vcpOpenRepInto(rp *vcpRep, t *testing.T, h *vcpHist, c vcpRepCfg) *vcpRep {
+	rp.t, rp.h, rp.cfg, rp.log = t, h, c, vcpNewLogger()
 	rp.lcfg = config.GetDefaultLocal()
 	rp.lcfg.Archival = true
 	rp.lcfg.MaxAcctLookback = c.mal
@@ -491,7 +505,7 @@ func (rp *vcpRep) open(prefix string) {
 	trackerdb.TrieMemoryConfig.NodesCountPerPage = rp.cfg.npp
 	trackerdb.TrieMemoryConfig.CachedNodesCount = rp.cfg.cache
 	l, err := OpenLedger(rp.log, prefix, !rp.cfg.onDisk, rp.h.initState(), rp.lcfg)
-	require.NoError(rp.t, err)
+	rp.must(err, "OpenLedger")
 	rp.l = l
 	rp.installGate()
 }
@@ -508,7 +522,7 @@ func (rp *vcpRep) installGate() {
 func (rp *vcpRep) dbRound() basics.Round { return rp.l.LatestTrackerCommitted() }
 
 func (rp *vcpRep) addBlock(blk bookkeeping.Block) {
-	require.NoError(rp.t, rp.l.AddBlock(blk, agreement.Certificate{}))
+	rp.must(rp.l.AddBlock(blk, agreement.Certificate{}), fmt.Sprintf("AddBlock %d", blk.Round()))
 	rp.l.WaitForCommit(blk.Round())
 	rp.events = append(rp.events, "b")
 }
@@ -550,7 +564,7 @@ func (rp *vcpRep) restart() {
 	trackerdb.TrieMemoryConfig.NodesCountPerPage = rp.cfg.npp
 	trackerdb.TrieMemoryConfig.CachedNodesCount = rp.cfg.cache
 	before := rp.dbRound()
-	require.NoError(rp.t, rp.l.reloadLedger())
+	rp.must(rp.l.reloadLedger(), "reloadLedger")
 	rp.installGate()
 	rp.events = append(rp.events, "r")
 	rp.noteReplayCommit(before)
@@ -926,11 +940,19 @@ func vc14RunCase(t *testing.T, out *vh.Out, c vc14Case) {
 		reps = vc14ClashReplicas(c)
 	}
 	for _, rc := range reps {
-		rp := vcpOpenRep(t, h, rc)
-		rp.run()
-		out.Emit(fmt.Sprintf("run %s mal=%d cfg=%s ev=%s", rc.name, rc.mal, rc.text(), strings.Join(rp.events, ",")), rp.labels())
-		t.Logf("%s commits: %v", rc.name, rp.gate.commits)
-		rp.close()
+		var rp *vcpRep
+		ok := t.Run(rc.name+"x", func(t *testing.T) {
+			rp = &vcpRep{t: t, cfg: rc}
+			rp = vcpOpenRepInto(rp, t, h, rc)
+			rp.run()
+			rp.close()
+		})
+		res := rp.labels()
+		if !ok {
+			// the real ledger returned an error on this history / schedule: a failing input of its own
+			res = "FAILED " + rp.failure
+		}
+		out.Emit(fmt.Sprintf("run %s mal=%d cfg=%s ev=%s", rc.name, rc.mal, rc.text(), strings.Join(rp.events, ",")), res)
 	}
 	t.Logf("case seed=%d: transaction kinds %v", c.seed, h.kinds)
 }
